@@ -214,3 +214,9 @@ def r5(c):
     ac = one(ro.calls('rodbus::server::task::SessionTask::apply_command'), 'apply_command')
     okc, how, why = q.success_leaves(ro, ac)
     c.ob('server/command-continues', okc, 'after a successfully applied command run_one returns Ok: the session loop goes on with the same reader', '%s: %s' % (how, why), ac.loc())
+
+
+@rule('C20', 'R20.6', 'a run-time level change reaches the sessions without ending any of them: it is forwarded best-effort by the server task (C15/R15.3)')
+def r6(c):
+    from rules import c15
+    c15.r3(c)
